@@ -52,17 +52,18 @@ MANIFEST = dict(
 MODULES = ["Gozod.Proofs.C03"]
 THEOREMS = ["Gozod.C03." + t for t in [
     "dv_applyAll", "df_applyAll", "pv_applyAll", "pf_applyAll", "nonOptional_applyAll", "optnil_applyAll",
-    "overwrite_applyAll", "c03_history_partial", "c03_outcome_reads_only_modifiers",
-    "c03_witness_default_checked", "c03_witness_refine_on_nil", "c03_witness_refine_on_nil_int",
+    "refines_applyAll", "hasOverwrite_applyAll", "c03_history_partial", "c03_outcome_reads_only_modifiers",
+    "c03_legacy_witness_default_checked", "c03_default_runs_no_check_partial", "c03_witness_overwrite_on_default",
+    "c03_witness_refine_on_nil", "c03_witness_refine_on_nil_int",
     "internals_wrapFrom", "internals_wrap", "parse_wrapFrom_plain", "parse_wrapFrom_default",
     "c03_wrapped_plain", "c03_wrapped_default", "c03_default_skips_all_transforms", "pipeCalls_noPipe", "pipeCalls_only_pipes",
-    "hasDefault_applyAll", "pipeCalls_eq_spec", "c03_wrapped_partial", "c03_wrapped_witness_default_checked", "c03_wrapped_nonnil",
+    "hasDefault_applyAll", "pipeCalls_eq_spec", "c03_wrapped_partial", "c03_wrapped_witness_refine_on_nil", "c03_wrapped_nonnil",
     "step_ctx", "step_eq_parseBase", "runSeq_ctx", "runSeq_results", "c03_ctx_history", "c03_ctx_history_discriminates",
     "specStep_parseBase", "c03_ctx_seq_partial", "c03_ctx_seq_witness",
     "c03_ctx_fields_as_modelled", "c03_ctx_never_written", "c03_ctx_state_read_only_for_messages", "c03_pmc_structure_as_transcribed",
     "c03_harness_covers_every_schema_type",
-    "applyAllC_i", "applyAllC_cfg", "processModifiers_nonNil", "ctxStepX_nonNil", "c03_nonnil_frame", "c03_nonnil_frame_plain",
-    "c03_frame_nil_side", "c03_nonnil_frame_witness_record", "c03_nonnil_frame_witness_struct",
+    "applyAllC_i", "applyAllC_cfg", "processModifiers_nonNil", "ctxStepX_nonNil", "c03_nonnil_frame_of", "c03_nonnil_frame",
+    "c03_frame_nil_side", "c03_legacy_frame_witness_record", "c03_legacy_frame_witness_struct",
     "c03_cfg_drops_as_modelled", "c03_cfg_table_covers_modifiers"]]
 
 # harness table entries that run the same Parse function as another entry: one class name for one defect
@@ -102,6 +103,7 @@ def seq_key(op, impl, M, S):
     if " ctx=" not in impl: return "ctx:%s-unreadable-observation" % kind
     isteps, ictx = impl.rsplit(" ctx=", 1)
     if "!fresh" in isteps: return "ctx:outcome-depends-on-context-history"
+    if "!ctx-changed" in isteps: return "ctx:context-left-changed"
     if ictx != "same": return "ctx:context-left-changed"
     a = isteps.split(" / ")
     s = (S or M).rsplit(" ctx=", 1)[0].split(" / ")
